@@ -466,6 +466,14 @@ def rule_or_aggr(repo, col):
             if isinstance(t, ast.Compare) and _mentions_id_of(t, {rec}):
                 blank = blank or any(isinstance(b, ast.Return)
                                      for b in n.body)
+    # decided by evaluating the function on a blank and a non-blank id
+    from .consteval import ConstEval as _CE2, UNKNOWN as _UNK2, \
+        _FALLTHROUGH as _FT2
+    ce2 = _CE2(repo)
+    r_blank = ce2.run_body(f.body, VAL, {rec: {'id': ''}})
+    r_named = ce2.run_body(f.body, VAL, {rec: {'id': 'x'}})
+    if not any(r is _UNK2 or r is _FT2 for r in (r_blank, r_named)):
+        blank = bool(r_blank) and r_named == ''
     col.check(blank, rule, VAL, 'TableValidator._valid_id', 'json-blank', f,
               'an empty id yields an error', 'empty ids are not tested')
     # ---- HDF5 ---------------------------------------------------------
